@@ -19,6 +19,13 @@ PKinds == {"smul", "add", "neg", "icomm", "acomm"}          \* how an unevaluate
 ExprEntries == {"P+Q", "P-Q", "P*Q", "P.Evolve(Q)"}         \* two expressions
 MixedEntries == {"P+v", "P-v", "v+P", "v-P", "P*v", "v*P", "P.Evolve(v)", "v.Evolve(P)", "iCommutator(P,v)", "ACommutator(v,P)", "v+=P", "v-=P"}
 WeightEntries == {"WeightedRotation(Const)", "WeightedRotation(matrices)"}
+\* two plain vectors, by WHERE their components live: the target u owns its storage, views a user buffer of its own, or views the
+\* very buffer the source v views ("shared": two vectors of possibly different dimension over one user array); v owns or views.
+\* Whose memory it is plays no part in the rule, with one exception the interface documents: assignment RESIZES a target that owns
+\* its storage, while a target on user storage cannot be resized and must reject a source of another dimension.
+VecEntries == {"u=v", "u=P", "u+=v", "u-=v", "u*v", "u+v", "u-v", "iCommutator(u,v)", "ACommutator(u,v)", "u.Evolve(v)"}
+TStores == {"own", "ext", "shared"}
+SStores == {"own", "ext"}
 
 VARIABLE c
 NoCase == [entry |-> "none"]
@@ -27,11 +34,14 @@ Init == c = NoCase
 ExprCase(e, k1, k2, d1, d2) == [entry |-> e, k1 |-> k1, k2 |-> k2, d1 |-> d1, d2 |-> d2, r |-> 0, cc |-> 0, must |-> (d1 # d2)]
 MatCase(e, d, r, cc) == [entry |-> e, k1 |-> "-", k2 |-> "-", d1 |-> d, d2 |-> 0, r |-> r, cc |-> cc,
                          must |-> (IF e = "Rotate(U)" THEN ~(r = d /\ cc = d) ELSE (r # cc \/ r = 1 \/ r > 6))]
+VecCase(e, k1, k2, d1, d2) == [entry |-> e, k1 |-> k1, k2 |-> k2, d1 |-> d1, d2 |-> d2, r |-> 0, cc |-> 0,
+                               must |-> (IF e \in {"u=v", "u=P"} THEN (d1 # d2 /\ k1 # "own") ELSE d1 # d2)]
 Next ==
   /\ c = NoCase
   /\ \/ \E e \in ExprEntries, k1 \in PKinds, k2 \in PKinds, d1 \in Dims, d2 \in Dims : c' = ExprCase(e, k1, k2, d1, d2)
      \/ \E e \in MixedEntries, k1 \in PKinds, d1 \in Dims, d2 \in Dims : c' = ExprCase(e, k1, "-", d1, d2)
      \/ \E e \in WeightEntries, d1 \in Dims, d2 \in Dims : c' = ExprCase(e, "-", "-", d1, d2)
+     \/ \E e \in VecEntries, k1 \in TStores, k2 \in SStores, d1 \in Dims, d2 \in Dims : (k1 = "shared" => k2 = "ext") /\ c' = VecCase(e, k1, k2, d1, d2)
      \/ \E d \in Dims, r \in Shapes, cc \in Shapes : c' = MatCase("Rotate(U)", d, r, cc)
      \/ \E r \in Shapes, cc \in Shapes : c' = MatCase("SU_vector(matrix)", 0, r, cc)
 Spec == Init /\ [][Next]_c
